@@ -128,3 +128,298 @@ Proof.
   destruct (2147483647 <? zn); [discriminate|].
   apply decode_loop_safe; reflexivity.
 Qed.
+
+(* ================================================================== *)
+(* (f) ops-level soundness of the decoder                              *)
+(* ================================================================== *)
+(* the byte-wise copy loop of the C code, as a pure function on the reversed output *)
+Fixpoint copy_spec (len : nat) (off : nat) (out : bytes) : bytes :=
+  match len with
+  | O => out
+  | S l => copy_spec l off (nth (off - 1) out 0 :: out)
+  end.
+
+Lemma copy_bytewise_spec : forall len off out,
+  1 <= off -> off <= nlen out ->
+  copy_bytewise len off out = Ok (copy_spec len (N.to_nat off) out).
+Proof.
+  induction len; intros off out H1 H2; cbn [copy_bytewise copy_spec]; [reflexivity|].
+  destruct (nth_error out (N.to_nat (off - 1))) eqn:E.
+  - rewrite IHlen by (rewrite ?nlen_cons; lia).
+    replace (N.to_nat off - 1)%nat with (N.to_nat (off - 1)) by lia.
+    rewrite (nth_error_nth _ _ 0 E). reflexivity.
+  - apply nth_error_None in E. unfold nlen in H2. lia.
+Qed.
+
+Lemma firstn_succ_nth : forall (l : bytes) n, (n < length l)%nat ->
+  firstn (S n) l = firstn n l ++ [nth n l 0].
+Proof.
+  induction l as [|x l IH]; intros n Hn; cbn [length] in Hn; [lia|].
+  destruct n; [reflexivity|].
+  change (firstn (S (S n)) (x :: l)) with (x :: firstn (S n) l).
+  change (firstn (S n) (x :: l)) with (x :: firstn n l).
+  change (nth (S n) (x :: l) 0) with (nth n l 0).
+  rewrite IH by lia. reflexivity.
+Qed.
+
+Lemma nth_skipn : forall (l : bytes) k n, nth n (skipn k l) 0 = nth (k + n) l 0.
+Proof.
+  induction l as [|x l IH]; intros k n.
+  - rewrite skipn_nil. destruct n; destruct (k + _)%nat; reflexivity.
+  - destruct k; cbn [skipn Nat.add nth]; [reflexivity|apply IH].
+Qed.
+
+(* memcpy(zp, zp - off, len) equals the byte loop when the ranges do not overlap *)
+Lemma copy_spec_block : forall len off out,
+  (len <= off)%nat -> (off <= length out)%nat ->
+  copy_spec len off out = firstn len (skipn (off - len) out) ++ out.
+Proof.
+  induction len; intros off out H1 H2; cbn [copy_spec]; [reflexivity|].
+  rewrite IHlen by (cbn [length]; lia).
+  replace (off - len)%nat with (S (off - S len)) by lia. cbn [skipn].
+  rewrite firstn_succ_nth by (rewrite skipn_length; lia).
+  rewrite <- app_assoc. cbn [app]. rewrite nth_skipn.
+  replace (off - S len + len)%nat with (off - 1)%nat by lia. reflexivity.
+Qed.
+
+Lemma do_copy_spec : forall len off out,
+  1 <= off -> off <= nlen out ->
+  do_copy len off out = Ok (copy_spec (N.to_nat len) (N.to_nat off) out).
+Proof.
+  intros len off out H1 H2. unfold do_copy.
+  destruct (len <=? off) eqn:E.
+  - unfold copy_block. rewrite nlen_take_n_le by (rewrite nlen_drop_n; lia).
+    rewrite N.eqb_refl. rewrite copy_spec_block by (unfold nlen in *; lia).
+    unfold take_n, drop_n. repeat f_equal. lia.
+  - apply copy_bytewise_spec; assumption.
+Qed.
+
+(* elements of a Snappy stream *)
+Inductive sop :=
+| SLit (w : N) (lit : bytes)        (* literal; w = number of extra length bytes (0..4) *)
+| SCopy (kind : N) (off len : N).   (* copy with 1-, 2- or 4-byte offset (kind = 1, 2, 4) *)
+
+Fixpoint le_bytes (w : nat) (x : N) : bytes :=
+  match w with
+  | O => []
+  | S w' => x mod 256 :: le_bytes w' (x / 256)
+  end.
+
+Definition sop_bytes (o : sop) : bytes :=
+  match o with
+  | SLit w lit =>
+      let n := nlen lit - 1 in
+      (if w =? 0 then [n * 4] else ((59 + w) * 4) :: le_bytes (N.to_nat w) n) ++ lit
+  | SCopy kind off len =>
+      if kind =? 1 then [(off / 256) * 32 + (len - 4) * 4 + 1; off mod 256]
+      else if kind =? 2 then ((len - 1) * 4 + 2) :: le_bytes 2 off
+      else ((len - 1) * 4 + 3) :: le_bytes 4 off
+  end.
+
+(* validity of an element when [zpos] bytes have been produced *)
+Definition sop_ok (zpos : N) (o : sop) : Prop :=
+  match o with
+  | SLit w lit =>
+      1 <= nlen lit /\ nlen lit < 2147483648 /\ w <= 4 /\
+      (if w =? 0 then nlen lit <= 60 else 256 ^ (w - 1) * 0 <= nlen lit - 1 < 256 ^ w)
+  | SCopy kind off len =>
+      1 <= off /\ off <= zpos /\
+      ((kind = 1 /\ 4 <= len <= 11 /\ off < 2048) \/
+       (kind = 2 /\ 1 <= len <= 64 /\ off < 65536) \/
+       (kind = 4 /\ 1 <= len <= 64 /\ off < 2147483648))
+  end.
+
+Definition sop_len (o : sop) : N :=
+  match o with SLit _ lit => nlen lit | SCopy _ _ len => len end.
+
+(* effect on the reversed output *)
+Definition sop_apply (o : sop) (out : bytes) : bytes :=
+  match o with
+  | SLit _ lit => rev_append lit out
+  | SCopy _ off len => copy_spec (N.to_nat len) (N.to_nat off) out
+  end.
+
+Fixpoint sops_ok (zpos : N) (ops : list sop) : Prop :=
+  match ops with
+  | [] => True
+  | o :: ops' => sop_ok zpos o /\ sops_ok (zpos + sop_len o) ops'
+  end.
+
+Fixpoint sops_apply (ops : list sop) (out : bytes) : bytes :=
+  match ops with
+  | [] => out
+  | o :: ops' => sops_apply ops' (sop_apply o out)
+  end.
+
+Definition sops_len (ops : list sop) : N := fold_right (fun o a => sop_len o + a) 0 ops.
+Definition sops_bytes (ops : list sop) : bytes := flat_map sop_bytes ops.
+
+Lemma le_num_le_bytes : forall w x, x < 256 ^ N.of_nat w -> le_num (le_bytes w x) = x.
+Proof.
+  induction w; intros x Hx; cbn [le_bytes le_num].
+  - cbn in Hx. lia.
+  - rewrite IHw.
+    + lia.
+    + rewrite Nat2N.inj_succ, N.pow_succ_r' in Hx. lia.
+Qed.
+
+Lemma le_bytes_length : forall w x, length (le_bytes w x) = w.
+Proof. induction w; intros; cbn [le_bytes length]; auto. Qed.
+
+Lemma copy_spec_length : forall len off out, length (copy_spec len off out) = (length out + len)%nat.
+Proof. induction len; intros; cbn [copy_spec]; [lia|]. rewrite IHlen. cbn [length]. lia. Qed.
+
+Lemma sop_bytes_nonempty : forall o, (1 <= length (sop_bytes o))%nat.
+Proof.
+  intros [w lit|kind off len]; cbn [sop_bytes].
+  - destruct (w =? 0); cbn [app length]; lia.
+  - destruct (kind =? 1); [cbn; lia|]. destruct (kind =? 2); cbn [length]; lia.
+Qed.
+
+(* one element *)
+Lemma decode_loop_sop : forall o fuel' xs out zpos zn,
+  sop_ok zpos o -> zpos = nlen out -> sop_len o <= zn ->
+  forall f, decode_loop (f :: fuel') (sop_bytes o ++ xs) (nlen (sop_bytes o ++ xs)) out zpos zn =
+  decode_loop fuel' xs (nlen xs) (sop_apply o out) (zpos + sop_len o) (zn - sop_len o).
+Proof.
+  intros o fuel' xs out zpos zn Hok Hz Hzn f.
+  rewrite decode_loop_unfold.
+  pose proof (sop_bytes_nonempty o) as Hne.
+  replace (nlen (sop_bytes o ++ xs) =? 0) with false
+    by (rewrite nlen_app; unfold nlen; lia).
+  clear Hne.
+  destruct o as [w lit|kind off len]; cbn [sop_bytes sop_ok sop_len sop_apply] in *.
+  - destruct Hok as (H1 & H2 & H3 & H4).
+    set (n := nlen lit - 1) in *.
+    destruct (w =? 0) eqn:Ew.
+    + cbn [app]. cbv zeta.
+      replace (n * 4 mod 4 =? 0) with true by lia.
+      replace (n * 4 / 4) with n by lia.
+      replace (n <? 60) with true by lia. cbv beta iota.
+      rewrite nlen_cons.
+      replace (1 + nlen (lit ++ xs) - 1 <? 0) with false by lia.
+      rewrite take_in_ok by lia. cbn [rbind]. rewrite ?take_n_0, ?drop_n_0.
+      replace (2147483647 <=? n) with false by lia.
+      replace (n + 1) with (nlen lit) by lia.
+      rewrite nlen_app.
+      replace ((zn <? nlen lit) || (1 + (nlen lit + nlen xs) - 1 - 0 <? nlen lit)) with false by lia.
+      rewrite take_in_ok by (rewrite nlen_app; lia). cbn [rbind].
+      rewrite take_n_nlen_app, drop_n_nlen_app.
+      f_equal. lia.
+    + cbn [app]. cbv zeta.
+      assert (Hw : 1 <= w <= 4) by lia.
+      replace ((59 + w) * 4 mod 4 =? 0) with true by lia.
+      replace ((59 + w) * 4 / 4) with (59 + w) by lia.
+      replace (59 + w <? 60) with false by lia. cbv beta iota.
+      replace (59 + w - 59) with w by lia.
+      rewrite nlen_cons, <- app_assoc, !nlen_app.
+      assert (Hlb : nlen (le_bytes (N.to_nat w) n) = w) by (unfold nlen; rewrite le_bytes_length; lia).
+      rewrite Hlb.
+      replace (1 + (w + (nlen lit + nlen xs)) - 1 <? w) with false by lia.
+      rewrite take_in_ok by (rewrite !nlen_app; lia). cbn [rbind].
+      rewrite (take_n_app_exact (le_bytes (N.to_nat w) n)) by (symmetry; exact Hlb).
+      rewrite (drop_n_app_exact (le_bytes (N.to_nat w) n)) by (symmetry; exact Hlb).
+      rewrite le_num_le_bytes by (rewrite N2Nat.id; lia).
+      replace (2147483647 <=? n) with false by lia.
+      replace (n + 1) with (nlen lit) by lia.
+      replace ((zn <? nlen lit) || (1 + (w + (nlen lit + nlen xs)) - 1 - w <? nlen lit)) with false by lia.
+      rewrite take_in_ok by (rewrite nlen_app; lia). cbn [rbind].
+      rewrite take_n_nlen_app, drop_n_nlen_app.
+      f_equal. lia.
+  - destruct Hok as (H1 & H2 & Hk).
+    destruct Hk as [(-> & Hl & Ho)|[(-> & Hl & Ho)|(-> & Hl & Ho)]]; cbn [N.eqb Pos.eqb app]; cbv zeta.
+    + set (b0 := off / 256 * 32 + (len - 4) * 4 + 1).
+      replace (b0 mod 4 =? 0) with false by (subst b0; lia).
+      replace (b0 mod 4 =? 1) with true by (subst b0; lia). cbv beta iota.
+      rewrite !nlen_cons.
+      replace (1 + (1 + nlen xs) <? 2) with false by lia.
+      rewrite take_in_ok; [|unfold nlen; cbn [length]; lia]. cbn [rbind].
+      change (take_n (2 - 1) (off mod 256 :: xs)) with [off mod 256].
+      change (drop_n (2 - 1) (off mod 256 :: xs)) with xs.
+      cbn [le_num].
+      replace (4 + b0 / 4 mod 8) with len by (subst b0; lia).
+      replace (b0 / 32 * 256 + (off mod 256 + 256 * 0)) with off by (subst b0; lia).
+      replace ((off =? 0) || (2147483648 <=? off)) with false by lia.
+      replace ((zpos <? off) || (zn <? len)) with false by lia.
+      rewrite do_copy_spec; [|lia|lia]. cbn [rbind]. f_equal; lia.
+    + set (b0 := (len - 1) * 4 + 2).
+      replace (b0 mod 4 =? 0) with false by (subst b0; lia).
+      replace (b0 mod 4 =? 1) with false by (subst b0; lia).
+      replace (b0 mod 4 =? 2) with true by (subst b0; lia). cbv beta iota.
+      cbn [le_bytes app]. rewrite !nlen_cons.
+      replace (1 + (1 + (1 + nlen xs)) <? 3) with false by lia.
+      rewrite take_in_ok; [|unfold nlen; cbn [length]; lia]. cbn [rbind].
+      change (take_n (3 - 1) (off mod 256 :: off / 256 mod 256 :: xs)) with [off mod 256; off / 256 mod 256].
+      change (drop_n (3 - 1) (off mod 256 :: off / 256 mod 256 :: xs)) with xs.
+      cbn [le_num].
+      replace (1 + b0 / 4) with len by (subst b0; lia).
+      replace (off mod 256 + 256 * (off / 256 mod 256 + 256 * 0)) with off by lia.
+      replace ((off =? 0) || (2147483648 <=? off)) with false by lia.
+      replace ((zpos <? off) || (zn <? len)) with false by lia.
+      rewrite do_copy_spec; [|lia|lia]. cbn [rbind]. f_equal; lia.
+    + set (b0 := (len - 1) * 4 + 3).
+      replace (b0 mod 4 =? 0) with false by (subst b0; lia).
+      replace (b0 mod 4 =? 1) with false by (subst b0; lia).
+      replace (b0 mod 4 =? 2) with false by (subst b0; lia). cbv beta iota.
+      cbn [le_bytes app]. rewrite !nlen_cons.
+      replace (1 + (1 + (1 + (1 + (1 + nlen xs)))) <? 5) with false by lia.
+      rewrite take_in_ok; [|unfold nlen; cbn [length]; lia]. cbn [rbind].
+      change (take_n (5 - 1) (off mod 256 :: off / 256 mod 256 :: off / 256 / 256 mod 256 :: off / 256 / 256 / 256 mod 256 :: xs))
+        with [off mod 256; off / 256 mod 256; off / 256 / 256 mod 256; off / 256 / 256 / 256 mod 256].
+      change (drop_n (5 - 1) (off mod 256 :: off / 256 mod 256 :: off / 256 / 256 mod 256 :: off / 256 / 256 / 256 mod 256 :: xs)) with xs.
+      cbn [le_num].
+      replace (1 + b0 / 4) with len by (subst b0; lia).
+      replace (off mod 256 + 256 * (off / 256 mod 256 + 256 * (off / 256 / 256 mod 256 + 256 * (off / 256 / 256 / 256 mod 256 + 256 * 0)))) with off by lia.
+      replace ((off =? 0) || (2147483648 <=? off)) with false by lia.
+      replace ((zpos <? off) || (zn <? len)) with false by lia.
+      rewrite do_copy_spec; [|lia|lia]. cbn [rbind]. f_equal; lia.
+Qed.
+
+Lemma sop_apply_length : forall o out, nlen (sop_apply o out) = nlen out + sop_len o.
+Proof.
+  intros [w lit|kind off len] out; cbn [sop_apply sop_len].
+  - rewrite nlen_rev_append. lia.
+  - unfold nlen. rewrite copy_spec_length. lia.
+Qed.
+
+Lemma decode_loop_sops : forall ops fuel out zpos zn,
+  sops_ok zpos ops -> zpos = nlen out -> zn = sops_len ops ->
+  (length ops <= length fuel)%nat ->
+  decode_loop fuel (sops_bytes ops) (nlen (sops_bytes ops)) out zpos zn
+  = Ok (Some (rev' (sops_apply ops out))).
+Proof.
+  induction ops as [|o ops IH]; intros fuel out zpos zn Hok Hz Hzn Hfuel.
+  - cbn [sops_bytes flat_map sops_apply sops_len fold_right] in *. subst zn.
+    rewrite decode_loop_unfold. reflexivity.
+  - destruct Hok as [Ho Hok]. cbn [length] in Hfuel.
+    destruct fuel as [|f fuel]; [cbn [length] in Hfuel; lia|]. cbn [length] in Hfuel.
+    unfold sops_bytes. cbn [flat_map]. fold (sops_bytes ops).
+    cbn [sops_len fold_right] in Hzn. fold (sops_len ops) in Hzn.
+    rewrite decode_loop_sop by (auto; lia).
+    cbn [sops_apply]. apply IH.
+    + exact Hok.
+    + rewrite sop_apply_length. lia.
+    + lia.
+    + lia.
+Qed.
+
+Lemma sops_bytes_length : forall ops, (length ops <= length (sops_bytes ops))%nat.
+Proof.
+  induction ops as [|o ops IH]; [cbn; lia|].
+  unfold sops_bytes in *. cbn [flat_map length]. rewrite app_length.
+  pose proof (sop_bytes_nonempty o). lia.
+Qed.
+
+(* (f) decoding the serialisation of a valid element list yields its expansion *)
+Theorem snappy_decode_ops : forall ops,
+  sops_ok 0 ops -> sops_len ops < 2147483648 ->
+  snappy_decode (varint32_write (sops_len ops) ++ sops_bytes ops)
+  = Ok (Some (rev (sops_apply ops []))).
+Proof.
+  intros ops Hok Hlen. unfold snappy_decode.
+  rewrite varint32_read_write by lia.
+  replace (2147483647 <? sops_len ops) with false by lia.
+  rewrite decode_loop_sops; auto.
+  - unfold rev'. rewrite <- rev_alt. reflexivity.
+  - rewrite app_length. pose proof (sops_bytes_length ops). lia.
+Qed.
